@@ -716,6 +716,7 @@ func init() {
 		DeathIsViolation: true,
 		HangIsViolation:  true,
 		Rule: "case k, k mod 4: (0) arbitrary bytes from a dictionary-guided mutator (declared option/ini/section names, [ ] = : \" \\ CR LF NUL BOM, random bytes, lines of 4094..4098/8192/70000 bytes with and without CR), with and without IgnoreUnknown: returns normally, a reported line lies inside the input; (1) a well-formed structured file versus the same file with blank lines, ; and # comments (up to 70 kB long), indentation, blanks around =, and LF / mixed / CRLF line ends: equal value snapshots and call logs; (2) one faulty line of kind (k/4 mod 9) in {no '=', unterminated '[', empty '[ ]', bad quoting, unknown option, unconvertible value, unknown section, empty key, bad map quoting} inserted at a random physical line of the noisy file: reported with exactly that 1-based line number (unknown section: ErrUnknownGroup); (3) unknown sections/options sprinkled in under IgnoreUnknown: result equals the file without them. " +
+			"k mod 9 = 5 (outside mode 0): global-section entries naming 1-3 options registered through the public AddOption API (effective long name or short name, noise lines, five spacings of the equals sign, LF/CRLF): a well-formed file is applied exactly to the program's own variables, one planted unconvertible value is reported as *flags.IniError with its line number; " +
 			"distinct = (mode, fault kind, line position, line-end style, size).",
 		Assumptions: []string{"each option is set in at most one section of a generated file (which section wins otherwise is C15's question)", "with several faulty lines the statement does not say which is reported; only single faults are generated"},
 		Technique:   "runtime safety monitor (panic/hang) on dictionary-guided arbitrary input + metamorphic noise invariance + fault localisation with the injected line position known by construction; multi-step histories on one parser with direct oracles",
